@@ -50,6 +50,18 @@ ASSUMPTIONS = [
 ]
 
 
+_MODF = {}
+
+
+def _with_modf(cls_):
+    """Interpreter factory: instances may call the module-level helper functions of task.py found for this run."""
+    def make(*a, **k):
+        it = cls_(*a, **k)
+        it.module_funcs = dict(_MODF)
+        return it
+    return make
+
+
 def _is_call_to(c, text):
     return isinstance(c, ast.Call) and call_name(c) == text
 
@@ -111,6 +123,8 @@ def _registrations(f_call, meths=None):
 
 def check(ctx):
     mod = ctx.mod(TASK)
+    _MODF.clear()
+    _MODF.update({st.name: st for st in mod.tree.body if isinstance(st, ast.FunctionDef) and st.name.startswith("_") and not st.decorator_list})
     KEEP = ("__init__", "start", "stop", "reset", "__call__", "_scheduleFrom", "withCount", "_intervalOf", "deferred", "__repr__")
     # normalised view: private helpers that are not anchors (e.g. a `_takeDeferred()` doing the swap) are inlined at their call sites
     cls = norm_class(ctx, TASK, "LoopingCall", KEEP)
@@ -402,7 +416,14 @@ def check(ctx):
                     else:
                         ctx.check(a.func == "LoopingCall._scheduleFrom", "who-may-write/call", key, "self.call assigned outside _scheduleFrom")
                 elif a.attr == "starttime":
-                    ctx.check(a.func in ("LoopingCall.start", "LoopingCall.reset") and _clock_read(v), "who-may-write/starttime", key,
+                    vv = v
+                    if isinstance(vv, ast.Name):   # a snapshot local: judged by its (single) definition in the same function
+                        fown = next((fx for qx, fx in funcs if qx == a.func), None)
+                        defs_ = [v2 for st2 in body_walk(fown) for t2, v2 in assign_pairs(st2) if isinstance(t2, ast.Name) and t2.id == vv.id] if fown is not None else []
+                        stores2 = [n2 for n2 in body_walk(fown) if isinstance(n2, ast.Name) and n2.id == vv.id and isinstance(n2.ctx, ast.Store)] if fown is not None else []
+                        if len(defs_) == 1 and len(stores2) == 1:
+                            vv = defs_[0]
+                    ctx.check(a.func in ("LoopingCall.start", "LoopingCall.reset") and _clock_read(vv), "who-may-write/starttime", ctx.construct(f"twisted.internet.task.{a.func}", "<starttime re-anchored>"),
                               "starttime (the origin of all boundaries) is written outside start/reset or not from the clock")
                 elif a.attr == "interval":
                     ctx.check(a.func == "LoopingCall.start" and isinstance(v, ast.Name) and v.id in [x.arg for x in f_start.args.args], "who-may-write/interval", key,
@@ -453,20 +474,31 @@ def check(ctx):
         when_param = f_sched.args.args[1].arg if len(f_sched.args.args) > 1 else None
         ctx.need(when_param, "_scheduleFrom(self, when)")
         tests = []
-        for n in ast.walk(f_sched):
-            if isinstance(n, ast.Compare) and len(n.ops) == 1 and isinstance(n.ops[0], (ast.Eq, ast.NotEq, ast.LtE, ast.GtE, ast.Lt, ast.Gt)):
-                for x, y in ((n.left, n.comparators[0]), (n.comparators[0], n.left)):
-                    if isinstance(y, ast.BinOp) and isinstance(y.op, ast.Add) and (src(y.left) == src(x) or src(y.right) == src(x)) and not isinstance(x, ast.Constant):
-                        tests.append((n, x))
+        scopes = [(f_sched, when_param)]
+        for c_ in ast.walk(f_sched):      # module-level helpers that receive `when`: the parameter it is bound to plays the same role there
+            if isinstance(c_, ast.Call) and isinstance(c_.func, ast.Name) and c_.func.id in _MODF and not c_.keywords:
+                hp = [a_.arg for a_ in _MODF[c_.func.id].args.args]
+                for i_, a_ in enumerate(c_.args):
+                    if src(a_) == when_param and i_ < len(hp):
+                        scopes.append((_MODF[c_.func.id], hp[i_]))
+        scope_of = {}
+        for fx_, wp_ in scopes:
+            for n in ast.walk(fx_):
+                if isinstance(n, ast.Compare) and len(n.ops) == 1 and isinstance(n.ops[0], (ast.Eq, ast.NotEq, ast.LtE, ast.GtE, ast.Lt, ast.Gt)):
+                    for x, y in ((n.left, n.comparators[0]), (n.comparators[0], n.left)):
+                        if isinstance(y, ast.BinOp) and isinstance(y.op, ast.Add) and (src(y.left) == src(x) or src(y.right) == src(x)) and not isinstance(x, ast.Constant):
+                            tests.append((n, x))
+                            scope_of[id(n)] = (fx_, wp_)
         if not tests:
             ctx.note("cadence/absorption-test-on-clock-reading: no `x == x + delay` test recognised in _scheduleFrom; clause left to the bounded rule "
                      "cadence/delay-is-next-boundary (large-exponent cases)")
         for n, x in tests:
+            f_scope, when_param = scope_of[id(n)]
             base = x
             seen = set()
             while isinstance(base, ast.Name) and base.id != when_param and base.id not in seen:   # follow pure aliases  t = when
                 seen.add(base.id)
-                owner = next((fn for fn in [f_sched] + [m for m in ast.walk(f_sched) if isinstance(m, (ast.FunctionDef, ast.AsyncFunctionDef)) and m is not f_sched]
+                owner = next((fn for fn in [f_scope] + [m for m in ast.walk(f_scope) if isinstance(m, (ast.FunctionDef, ast.AsyncFunctionDef)) and m is not f_scope]
                               if any(isinstance(st, (ast.Assign, ast.AnnAssign)) and any(isinstance(t, ast.Name) and t.id == base.id for t, v in assign_pairs(st)) for st in body_walk(fn))), None)
                 if owner is None:
                     break
@@ -505,7 +537,7 @@ def _sym_schedule(ctx, f_sched, meths):
                                         ("interval == 0", 0, s_ + Lin(env, {"k": 1, "rho": 1}), None)):
         rec = []
         sr = SelfRef({"interval": interval, "starttime": s_, "call": None})
-        it = SymInterp(sr, meths, {"self.clock.callLater": lambda d, fn, rec=rec: rec.append((d, fn)) or object()})
+        it = _with_modf(SymInterp)(sr, meths, {"self.clock.callLater": lambda d, fn, rec=rec: rec.append((d, fn)) or object()})
         try:
             it.call_function(f_sched, [when], bind_self=True)
         except (EvalUnsupported, EvalAssert) as e:
@@ -579,7 +611,7 @@ def _sym_counter(ctx, f_wc, meths):
         siblings = {"__outer__": None}
         for nm, fn in nd.items():
             siblings[nm] = Closure(fn, siblings)
-        it = SymInterp(sr, meths, {"self.clock.seconds": lambda now=now: now, cb_name: lambda c, got=got: got.append(c)}, self_names=tuple(self_names))
+        it = _with_modf(SymInterp)(sr, meths, {"self.clock.seconds": lambda now=now: now, cb_name: lambda c, got=got: got.append(c)}, self_names=tuple(self_names))
         try:
             it.call_function(counter, [], outer=siblings)
             esign = expect.sign()
@@ -604,7 +636,7 @@ def _sym_counter(ctx, f_wc, meths):
         siblings = {"__outer__": None}
         for nm, fn in nd.items():
             siblings[nm] = Closure(fn, siblings)
-        it = SymInterp(sr, meths, {"self.clock.seconds": lambda now=now: now, cb_name: lambda c, got=got: got.append(c)}, self_names=tuple(self_names))
+        it = _with_modf(SymInterp)(sr, meths, {"self.clock.seconds": lambda now=now: now, cb_name: lambda c, got=got: got.append(c)}, self_names=tuple(self_names))
         try:
             it.call_function(counter, [], outer=siblings)
         except (EvalUnsupported, EvalAssert) as e:
@@ -637,7 +669,7 @@ def _eval_schedule(ctx, f_sched, meths):
         def call_later(delay, fn, rec=rec, token=token):
             rec.append((delay, fn))
             return token
-        it = Interp(sr, meths, {"self.clock.callLater": call_later})
+        it = _with_modf(Interp)(sr, meths, {"self.clock.callLater": call_later})
         try:
             it.call_function(f_sched, [when], bind_self=True)
         except EvalUnsupported as e:
@@ -696,7 +728,7 @@ def _eval_counter(ctx, f_wc, meths):
                     sr = SelfRef({"interval": interval, "starttime": start, "_runAtStart": ras, "_realLastTime": None})
                     now = [start + first * (interval or 1.0)]
                     got = []
-                    it = Interp(sr, meths, {"self.clock.seconds": lambda now=now: now[0], cb_name: lambda c, got=got: got.append(c)},
+                    it = _with_modf(Interp)(sr, meths, {"self.clock.seconds": lambda now=now: now[0], cb_name: lambda c, got=got: got.append(c)},
                                 self_names=tuple(self_names))
                     calls = 0
                     for step in [0.0] + [p * (interval or 1.0) for p in pat]:
@@ -733,7 +765,7 @@ def _eval_counter(ctx, f_wc, meths):
                 sr = SelfRef({"interval": interval, "starttime": start, "_runAtStart": ras, "_realLastTime": None})
                 now = [start]
                 got = []
-                it = Interp(sr, meths, {"self.clock.seconds": lambda now=now: now[0], cb_name: lambda c, got=got: got.append(c)}, self_names=tuple(self_names))
+                it = _with_modf(Interp)(sr, meths, {"self.clock.seconds": lambda now=now: now[0], cb_name: lambda c, got=got: got.append(c)}, self_names=tuple(self_names))
                 times = ([start] if ras else []) + [start + interval * k for k in (1, 2, 3)]
                 try:
                     for t in times:
